@@ -184,10 +184,12 @@ mod imp {
     pub struct Imp { pub text: String, pub value: i64, pub host: Option<(String, i64)>, pub global: Option<String> }
     pub struct ModDef { pub name: String, pub fns: Vec<(String, i64)>, pub consts: Vec<(String, i64)> }
     pub struct Gen { pub rng: Rng, pub n: u64, pub o: Oracle, pub boomed_host: bool,
-                     pub modules: Vec<ModDef>, pub forms_left: Vec<u8>, pub pending: Vec<Imp>, pub usable: Vec<Imp>, pub rejected_probe: Vec<Imp> }
+                     pub modules: Vec<ModDef>, pub forms_left: Vec<u8>, pub pending: Vec<Imp>, pub usable: Vec<Imp>, pub rejected_probe: Vec<Imp>,
+                     /// steps already decided (directed sequences), oldest last
+                     pub queued: Vec<Step> }
     impl Gen {
         pub fn new(seed: u64) -> Self {
-            let mut g = Gen { rng: Rng::new(seed), n: 0, o: Oracle::new(), boomed_host: false, modules: vec![], forms_left: vec![], pending: vec![], usable: vec![], rejected_probe: vec![] };
+            let mut g = Gen { rng: Rng::new(seed), n: 0, o: Oracle::new(), boomed_host: false, modules: vec![], forms_left: vec![], pending: vec![], usable: vec![], rejected_probe: vec![], queued: vec![] };
             // two small user modules (written next to the session's working directory by run_case)
             for m in ["ua", "ub"] {
                 let k1 = g.rng.range_i64(2, 9); let k2 = g.rng.range_i64(2, 9); let c = g.rng.range_i64(10, 99);
@@ -366,6 +368,10 @@ mod imp {
                                                  Stmt::Def { name: "f0".into(), def: FnDef { tag: "T0".into(), kind: FnKind::AddK(1) } }], expect: Expect::Ok };
             }
             // the import of an input that was rejected at compile time must not have taken effect
+            if let Some(st) = self.queued.pop() {
+                // still valid? (a queued host call of a function that an input in between removed is dropped)
+                match &st { Step::Host { f, .. } if !self.o.fns.contains_key(f) => {}, Step::HostSet { name, .. } if !self.o.vars.contains_key(name) => {}, _ => return st }
+            }
             if let Some(p) = self.rejected_probe.pop() {
                 return Step::Input { stmts: vec![Stmt::Raw { text: format!("println({})", p.text) }], expect: Expect::CompileError };
             }
@@ -383,7 +389,21 @@ mod imp {
             if r < 17 { return Step::Host { f: self.fresh("nosuch"), arg: 1, cached: self.rng.chance(1, 2), extra: false }; }
             if r < 22 {
                 let mv = self.int_vars(true);
-                if !mv.is_empty() { let name = self.pick(&mv); return Step::HostSet { name, val: self.rng.range_i64(-50, 50) }; }
+                if !mv.is_empty() {
+                    let name = self.pick(&mv);
+                    let val = self.rng.range_i64(-50, 50);
+                    // directed: host call of a function that reads / mutates this global, set, the same call again
+                    // (the function's layout is still loaded when the global is set)
+                    let users: Vec<String> = { let mut v: Vec<String> = self.o.fns.iter().filter(|(_, d)| matches!(&d.kind, FnKind::ReadG(g) | FnKind::BumpG(g) | FnKind::Bump0(g) if *g == name)).map(|(k, _)| k.clone()).collect(); v.sort(); v };
+                    if !users.is_empty() && self.rng.chance(2, 3) {
+                        let f = self.pick(&users); let arg = arg_of(&f);
+                        let cached = self.rng.chance(1, 3);
+                        self.queued.push(Step::Host { f: f.clone(), arg, cached, extra: false });
+                        self.queued.push(Step::HostSet { name, val });
+                        return Step::Host { f, arg, cached: self.rng.chance(1, 3), extra: false };
+                    }
+                    return Step::HostSet { name, val };
+                }
             }
             let mut defined_here = HashSet::new();
             let mut assigned_here = HashSet::new();
